@@ -6,7 +6,6 @@ import itertools
 
 SIZES = list(range(1, 131)) + [191, 192, 193, 253, 255, 256, 257, 320]
 NGROUPS = 8
-ARRAY_SIZES = [1, 2, 3, 4, 7, 16]
 M64 = (1 << 64) - 1
 
 def group_of(n):
@@ -128,25 +127,60 @@ def exhaustive_small(maxn=6):
     return out
 
 # ---------------------------------------------------------------------------------------------
-def gen_array(rng, n):
-    e = lambda: rng.choice([0, 1, M64, rng.randrange(1000), rng.getrandbits(64)])
-    lines = ["array %d " % n + " ".join(str(e()) for _ in range(n))]
-    for _ in range(rng.randrange(5, 25)):
-        o = rng.choice(["front", "back", "back", "idx", "put", "iter", "eq", "eqsame", "size", "get", "swap", "concat"])
+ARRAY_KINDS = {"u64": [1, 2, 3, 4, 7, 16], "f64": [1, 3, 4], "f32": [1, 3, 4], "ptr": [1, 3, 4], "enum": [1, 3, 4], "pad": [1, 3, 4]}
+ARRAY_GROUP = {"u64": "A", "pad": "A", "enum": "A", "f64": "B", "f32": "B", "ptr": "B"}
+
+def array_elem(rng, kind):
+    """an element code (see comp/bits/harness.cpp: floats 0..9 = +0 -0 NaN +inf -inf 1 -1 2.5 denorm -NaN)"""
+    if kind == "u64":
+        return rng.choice([0, 1, M64, rng.randrange(1000), rng.getrandbits(64)])
+    if kind in ("f64", "f32"):
+        return rng.choice([0, 1, 2, 3, 4, 5, 6, 7, 8, 9, 0, 1, 2, rng.randrange(10, 40), rng.randrange(10, 1 << 20)])
+    if kind == "ptr":
+        return rng.randrange(200)
+    if kind == "enum":
+        return rng.choice([0, 255, 256, rng.randrange(600)])
+    return rng.randrange(4) + (rng.choice([0, 1, 2, 3, 4, 5, 1 << 31, (1 << 32) - 1, rng.getrandbits(32)]) << 8)   # pad: a + (b << 8)
+
+def array_equiv(rng, kind, c):
+    """another code for an element that compares equal to c under the element's own == (where one exists)"""
+    if kind in ("f64", "f32"):
+        return {0: 1, 1: 0}.get(c, c)
+    if kind == "ptr":
+        return c + 64
+    if kind == "enum":
+        return c + 256
+    if kind == "pad":
+        return c ^ 256           # flips the low bit of b, which Pad::operator== ignores
+    return c
+
+def gen_array(rng, kind, n):
+    e = lambda: array_elem(rng, kind)
+    cur = [e() for _ in range(n)]
+    lines = ["array %s %d " % (kind, n) + " ".join(map(str, cur))]
+    for _ in range(rng.randrange(6, 26)):
+        o = rng.choice(["front", "back", "back", "idx", "put", "iter", "eq", "eq", "eqv", "eqv", "eqself", "size", "get", "swap", "concat"])
         if o == "idx":
             lines.append("idx %d" % rng.randrange(n))
         elif o == "put":
-            lines.append("put %d %d" % (rng.choice([0, n - 1, rng.randrange(n)]), e()))
-        elif o in ("eq", "swap"):
-            lines.append("%s " % o + " ".join(str(e()) for _ in range(rng.randrange(1, n + 1))))
-        elif o == "eqsame":
-            lines.append("iter")
+            i = rng.choice([0, n - 1, rng.randrange(n)]); v = e(); cur[i] = v
+            lines.append("put %d %d" % (i, v))
+        elif o == "eq":          # unrelated / periodic comparand
+            lines.append("eq " + " ".join(str(e()) for _ in range(rng.randrange(1, n + 1))))
+        elif o == "eqv":         # the same elements, some written with an equivalent code, at most one really changed
+            v = [array_equiv(rng, kind, c) if rng.random() < 0.5 else c for c in cur]
+            if rng.random() < 0.3:
+                v[rng.randrange(n)] = e()
+            lines.append("eq " + " ".join(map(str, v)))
+        elif o == "swap":
+            v = [e() for _ in range(n)]
+            lines.append("swap " + " ".join(map(str, v))); cur = v
         elif o == "concat":
-            m = rng.choice([1, 2, 3, 5])
-            lines.append("concat %d " % m + " ".join(str(e()) for _ in range(m)))
+            m = rng.choice([1, 2, 3, 5] if kind == "u64" else [2, 5])
+            lines.append("concat %d " % m + " ".join(str(e()) for _ in range(5)))
         else:
             lines.append(o)
-    lines += ["front", "back", "iter"]
+    lines += ["front", "back", "iter", "eqself"]
     return lines
 
 def gen_mt(rng, seed=None, count=2000):
@@ -198,7 +232,13 @@ def gen_sort_random(rng, n_lines):
 def corpus():
     """Minimised past failures (the replays that showed D20-D23 on the unfixed code); run first."""
     cs = []
-    cs.append(("corpus-d20-array-back", ["array 3 10 20 30", "back"]))
+    cs.append(("corpus-d20-array-back", ["array u64 3 10 20 30", "back"]))
+    # seeded change (round 2): array::operator== via memcmp for scalar T -- wrong for floating point
+    cs.append(("corpus-array-eq-signed-zero", ["array f64 3 0 5 1", "eq 1 5 0", "eqself"]))
+    cs.append(("corpus-array-eq-nan", ["array f64 1 2", "eqself", "eq 2", "eq 9"]))
+    cs.append(("corpus-array-eq-f32", ["array f32 4 0 2 3 7", "eqself", "eq 1 2 3 7", "put 1 6", "eq 1 6 3 7", "eqself"]))
+    cs.append(("corpus-array-eq-pad-enum-ptr", ["array pad 3 1 258 515", "eq 1 2 771", "eq 1 258 516", "eqself"]))
+    cs.append(("corpus-array-concat-5", ["array u64 2 1 2", "concat 3 7 8 9 10 11", "concat 5 1 2 3 4 5"]))
     cs.append(("corpus-d21-ctor-mask", ["bitset 12", "val 0 65535", "count 0"]))
     cs.append(("corpus-d21-ctor-upper-words", ["bitset 70", "val 0 5", "count 0"]))
     cs.append(("corpus-d22-ref-not", ["bitset 12", "set1 0 3", "refnot 0 3", "refnot 0 4"]))
